@@ -109,8 +109,8 @@ mut("c10_solve_without_seterr", "C10", [("forsys/fmatrix.py",
     ("forsys/general_matrix.py",
     "        np.seterr(all='raise')\n        assert self.lhs_matrix is not None, \"LHS matrix not set\"\n",
     "        assert self.lhs_matrix is not None, \"LHS matrix not set\"\n")],
-    "solves no longer switch the calling thread to raise mode: on a caller thread that is not the importing thread floating point errors become warnings; only matters when a solve actually hits one",
-    expect="caught")
+    "solves no longer switch the calling thread to raise mode. Caught (R2, thread placement) at /repo 0fc4ddc; since fix 41d804a set_velocity_matrix sets the error state at the start of every stress solve, so only a pressure solve on a thread that never solved stresses could still differ, and only if it hits a floating point error",
+    expect="neutralised-by-fix")
 mut("c09_join_keeps_second_vertex", "C09", [("forsys/virtual_edges.py",
     "    del vertices[v0.id]\n    del vertices[v1.id]\n", "    del vertices[v0.id]\n")],
     "the second end of a contracted interface stays in the vertex dictionary with stale back-references")
